@@ -1,5 +1,5 @@
-import CardVerif.Model.Evaluators
-import CardVerif.Model.Rank5
+import CardModel.Model.Evaluators
+import CardModel.Model.Rank5
 /-!
 # Dealing helpers, Hutchinson point count, canonical hand form, all-in equity
 
